@@ -93,6 +93,15 @@ func NewDnsConn(opt TraditionalDnsConnOpts, conn NetConn) *TraditionalDnsConn {
 
 // exchange sends q out and waits for its reply.
 func (dc *TraditionalDnsConn) exchange(ctx context.Context, q []byte) (*[]byte, error) {
+	// The caller's reservation is released here unless addQueueC converts
+	// it into a queue entry.
+	reserved := true
+	defer func() {
+		if reserved {
+			(*tdcOneTimeExchanger)(dc).WithdrawReserved()
+		}
+	}()
+
 	select {
 	case <-dc.closeNotify:
 		return nil, ErrTDCClosed
@@ -103,6 +112,7 @@ func (dc *TraditionalDnsConn) exchange(ctx context.Context, q []byte) (*[]byte, 
 	if respChan == nil {
 		return nil, ErrTDCTooManyQueries
 	}
+	reserved = false
 	defer dc.deleteQueueC(assignedQid)
 
 	// A reply that was already handed over wins over any error.
@@ -266,6 +276,7 @@ func (dc *TraditionalDnsConn) queueLen() int {
 // addQueueC assigns a qid and add it to the queue.
 // It returns a nil c if queue has too many queries.
 // Caller must call deleteQueueC to release the qid in queue.
+// On success, the caller's reservation is converted into the queue entry.
 func (dc *TraditionalDnsConn) addQueueC() (qid uint16, c chan *[]byte) {
 	c = make(chan *[]byte, 1)
 	dc.queueMu.Lock()
@@ -276,6 +287,7 @@ func (dc *TraditionalDnsConn) addQueueC() (qid uint16, c chan *[]byte) {
 			continue
 		}
 		dc.queue[uint32(qid)] = c
+		dc.reservedQuery--
 		dc.queueMu.Unlock()
 		return qid, c
 	}
@@ -310,7 +322,6 @@ type tdcOneTimeExchanger TraditionalDnsConn
 var _ ReservedExchanger = (*tdcOneTimeExchanger)(nil)
 
 func (ote *tdcOneTimeExchanger) ExchangeReserved(ctx context.Context, q []byte) (resp *[]byte, err error) {
-	defer ote.WithdrawReserved()
 	return (*TraditionalDnsConn)(ote).exchange(ctx, q)
 }
 
